@@ -8,6 +8,7 @@ job = {"repo": "/repo", "root": "<dataset root>", "datasets": [ds, ...]}
   family 1 (tables given by the model): emin, emax (decimal strings), lines = [e1 table, row 1 .. row n] as decimal
             strings, pdf = triangular rows of floats (for tab_pdf.data)
             -> mkocdfdata.save_tab_ncdf / save_tab_pdf (hence save_tab_cdf) of the repository write the files
+  family 2 with direct = true: as family 1, the tables being arbitrary floats (repr strings)
   family 2 (whole pipeline): emin, step (floats), pdf = triangular rows; a 3-column "E1 E2 P" file is written and
             load_tab_pdf / fill_tab_cdf / fill_tab_ncdf / save_* of the repository produce both files; with cli = true the
             documented command line `python3 mkocdfdata.py <file> <isotope> <mode> <Qbb>` is run instead (and must
@@ -55,7 +56,10 @@ def write_family1(mk, root, ds):
     app.tab_pdf = ds["pdf"]
     app.opdf_filename = os.path.join(d, "tab_pdf.data")
     app.save_tab_pdf(False)
-    return {"ok": True, "emin": app.e1min.hex(), "emax": app.e1max.hex()}
+    res = {"ok": True, "emin": app.e1min.hex(), "emax": app.e1max.hex()}
+    if ds["family"] == 2:      # tables given as floats (not model values): the expected tables are these floats
+        res["ncdf"] = [[v.hex() for v in line] for line in lines]
+    return res
 
 
 def write_family2(mk, mkpath, root, ds, scratch):
@@ -105,7 +109,7 @@ def main():
     for ds in job["datasets"]:
         try:
             with contextlib.redirect_stderr(sink):
-                if ds["family"] == 1:
+                if ds["family"] == 1 or ds.get("direct"):
                     out[ds["id"]] = write_family1(mk, root, ds)
                 else:
                     out[ds["id"]] = write_family2(mk, mkpath, root, ds, scratch)
